@@ -113,6 +113,9 @@ def run_case(case, choose=None, aux=None, max_steps=60000, enable_logging=False,
     out['tokens'] = ec.canon_record(rec, ctx) if rec is not None else ['O:none']
   except Exception as e:  # pylint: disable=broad-except
     # a record that cannot be canonicalised (e.g. no outcome) is an observation, not a harness error
-    out['tokens'] = ['O:BROKEN-RECORD:%s' % type(e).__name__]
+    import traceback
+    tb = traceback.extract_tb(e.__traceback__)
+    where = '%s:%d' % (tb[-1].filename.split('/')[-1], tb[-1].lineno) if tb else '?'
+    out['tokens'] = ['O:BROKEN-RECORD:%s' % type(e).__name__, 'X:where:%s:%s:crashes=%s:exc=%s' % (where, str(e).replace(' ', '_')[:80], ','.join(ec.LAST_CRASH or ec.CRASHES), type(out.get('exc')).__name__)]
   out['crashes'] = [c for c in ec.CRASHES if c != 'ThreadTerminationError']
   return out
